@@ -230,6 +230,24 @@ def key_group_items(info):
     return g.get(gid)
 
 
+def _member_of_const(t, env, atom_of, mod):
+    """value of `atom in NAME` / `atom not in NAME` where NAME is a module-level literal collection of constants
+    (frozenset({...}), a set / tuple / list display), else None"""
+    if not (isinstance(t, ast.Compare) and len(t.ops) == 1 and isinstance(t.ops[0], (ast.In, ast.NotIn))):
+        return None
+    a = atom_of(t.left)
+    c = t.comparators[0]
+    if a is None:
+        return None
+    d = mod.consts.get(c.id) if isinstance(c, ast.Name) else c
+    if isinstance(d, ast.Call) and isinstance(d.func, ast.Name) and d.func.id in ("frozenset", "set", "tuple", "list") and len(d.args) == 1:
+        d = d.args[0]
+    if isinstance(d, (ast.Set, ast.Tuple, ast.List)) and all(isinstance(x, ast.Constant) for x in d.elts):
+        inside = env[a] in {x.value for x in d.elts}
+        return inside if isinstance(t.ops[0], ast.In) else not inside
+    return None
+
+
 def r19_1_parser(ctx):
     pf, loop = tag_loop(ctx, "R19.1")
     info = tag_regex_info(pf, loop, "R19.1")
@@ -293,8 +311,13 @@ def r19_1_parser(ctx):
                             consistent = False
                         continue
                     try:
-                        v = ordtab.Evaluator(env, atom_of).truth(t)
-                    except ordtab.Unsupported:
+                        v = _member_of_const(t, env, atom_of, pf.module)
+                        if v is None:
+                            v = ordtab.Evaluator(env, atom_of).truth(t)
+                    except ordtab.Unsupported as ex_:
+                        mentioned = {norm(x) for x in ast.walk(t) if isinstance(x, (ast.Name, ast.Attribute, ast.Subscript))}
+                        if vv in mentioned or (kv in mentioned and not (isinstance(t, ast.Compare) and isinstance(t.ops[0], (ast.In, ast.NotIn)))):
+                            raise AnalysisError("R19.1", pf.where(loop), f"a test on the field's key / value is outside the fragment of the decision table: `{norm(t)[:60]}` ({ex_})")
                         continue  # condition on something else (e.g. `key not in tags`): both outcomes possible
                     if v != pol:
                         consistent = False
@@ -841,6 +864,18 @@ def r19_7(ctx, m):
             if sec:
                 continue
             wants = flag is None or any(e.kind == "test" and isinstance(e.node, ast.Name) and e.node.id == flag and e.pol for e in p.events)
+            # the option may also be tested in a guard clause (`if not cigar_stat: continue`): a path on which an option of
+            # the command (a bare parameter name) is false did not ask for the statistics
+            for e in p.events:
+                if e.kind == "test":
+                    t_, pol_ = e.node, e.pol
+                    while isinstance(t_, ast.UnaryOp) and isinstance(t_.op, ast.Not):
+                        t_, pol_ = t_.operand, not pol_
+                    if isinstance(t_, ast.Name) and t_.id in f.params and not pol_:
+                        wants = False
+                    # an empty CIGAR has no runs: skipping the loop for it counts nothing less
+                    if isinstance(t_, ast.Compare) and len(t_.ops) == 1 and isinstance(t_.ops[0], ast.Eq) and const_value(t_.comparators[0], None) == "" and pol_ and ("cigar" in norm(t_.left)):
+                        wants = False
             if not wants:
                 continue
             if not any(e.kind == "loop" and e.node is rl for e in p.events):
